@@ -496,3 +496,361 @@ def write(doc, rng, fmt=None):
         rev = Revision({n: Obj(v) for n, v in doc.objs.items()}, fmt=fmt, trailer=tr)
     data, info = write_file([rev])
     return data
+
+
+# ---- tiling patterns in the resources of a form (§8.7.3; Pattern::deep_clone) ------------------------
+
+# pieces of a pattern's content: each is a complete drawing step, so any concatenation is a valid content stream
+PATTERN_STEPS = [b"1 w", b"0 0 m 4 4 l S", b"0.5 g", b"0 0 2 2 re f", b"1 0 0 RG", b"2 w", b"0 0 0 1 k", b"1 1 m 3 1 l 3 3 l S",
+                 b"q 1 0 0 1 2 2 cm 0 0 1 1 re f Q", b"[2 1] 0 d", b"1 J", b"0 1 0 rg"]
+PATTERN_FORM_KINDS = ["direct", "indirect", "gs", "xobject", "font", "shared", "nested-form", "two-patterns", "stroke", "unused"]
+
+
+def pattern_content(rng, extra=()):
+    """a content stream of at least three operations that is not its own reverse (operation by operation)"""
+    while True:
+        steps = rng.sample(PATTERN_STEPS, rng.randrange(2, 5)) + list(extra)
+        rng.shuffle(steps)
+        data = rng.choice([b" ", b"\n"]).join(steps)
+        ops = [t[1] for t in G.tokens(data) if t[0] == "op"]
+        if len(ops) >= 3 and ops != ops[::-1]:
+            return data
+
+
+def make_tiling(doc, rng, res=None, extra=()):
+    """a PatternType 1 pattern (Table 75) as an indirect stream; `res`: its resource dictionary (held by reference)"""
+    doc.features.add("pattern:tiling")
+    d = {"Type": Name("Pattern"), "PatternType": 1, "PaintType": 1, "TilingType": rng.choice([1, 2, 3]),
+         "BBox": [0, 0, rng.randrange(4, 9), 5.5], "XStep": rng.choice([5, 6.25]), "YStep": rng.choice([5, 7]),
+         "Resources": doc.add(dict(res or {}))}
+    if rng.random() < 0.4:
+        d["Matrix"] = [1, 0, 0, 1, rng.randrange(5), 0.5]
+    return doc.add(enc_stream(rng, d, pattern_content(rng, extra), rng.choice(["none", "none", "flate", "hex", "a85", "lzw", "a85+flate"])))
+
+
+def plant_pattern_form(doc, rng, kind):
+    """a form whose own /Resources hold tiling patterns used by its operations (`/Pattern cs /P0 scn`), drawn by a page.
+    The form's resource dictionary is copied whole by the importer (typed: Resources -> Ref<Pattern>)."""
+    doc.features.add("form-pattern:" + kind)
+    pn = rng.choice(doc.pages)
+    page = doc.objs[pn]
+    pres, extra = {}, []
+    if kind == "gs":
+        pres = {"ExtGState": {"G0": rng.choice([make_gs(doc, rng), doc.add(make_gs(doc, rng))])}}
+        extra = [b"/G0 gs"]
+    elif kind == "xobject":
+        pres = {"XObject": {"X0": make_image(doc, rng) if rng.random() < 0.5 else make_form(doc, rng)}}
+        extra = [b"q /X0 Do Q"]
+    elif kind == "font":
+        pres = {"Font": {"F0": doc.add(make_font(doc, rng, rng.choice(["type1", "truetype"])))}}
+        extra = [b"BT /F0 4 Tf (p) Tj ET"]
+    elif kind == "unused":
+        # a resource of the pattern that its operations do not name (pruned or kept: not judged)
+        pres = {"ExtGState": {"G0": make_gs(doc, rng), "GUnused": make_gs(doc, rng)}}
+        extra = [b"/G0 gs"]
+    pat = make_tiling(doc, rng, pres, extra)
+    pats = {"P0": pat}
+    body = [b"/Pattern cs /P0 scn 0 0 10 10 re f"]
+    if kind == "stroke":
+        body = [b"/Pattern CS /P0 SCN 1 1 m 9 9 l S"]
+    if kind == "two-patterns":
+        pats["P1"] = make_tiling(doc, rng)
+        body.append(b"/Pattern CS /P1 SCN 0 0 m 9 9 l S")
+    fres = {"Pattern": pats}
+    if rng.random() < 0.5:
+        fres["ExtGState"] = {"GF": make_gs(doc, rng)}
+        body.insert(0, b"/GF gs")
+    if kind == "indirect" or (kind not in ("direct", "nested-form") and rng.random() < 0.3):
+        doc.features.add("form:indirect-resources")
+        fres = doc.add(fres)
+    form = make_form(doc, rng, fres, b" ".join(body))
+    if kind == "nested-form":
+        # the form with the pattern is drawn by another form
+        form = make_form(doc, rng, {"XObject": {"In": form}}, b"q /In Do Q")
+    add_resource(doc, page, "XObject", "XP", form, b"q /XP Do Q")
+    if kind == "shared":
+        # a second form (on any page) uses the same pattern object: one copy
+        page2 = doc.objs[rng.choice(doc.pages)]
+        form2 = make_form(doc, rng, {"Pattern": {"PS": pat}}, b"/Pattern cs /PS scn 0 0 3 3 re f")
+        add_resource(doc, page2, "XObject", "XP2", form2, b"q /XP2 Do Q")
+
+
+# ---- marked content with property lists (§14.6; deep_clone_op: BeginMarkedContent / MarkedContentPoint) -------------
+
+MC_KINDS = ["bmc-mp", "bdc-inline", "dp-inline", "bdc-ref", "dp-ref", "bdc-ref-shared", "bdc-ref-chain", "form-properties"]
+# the property list cannot be copied (a reference in it designates no object): the import must fail, or copy the sequence as it is
+MC_BAD_KINDS = ["bdc-dangling", "dp-dangling", "bdc-dangling-nested", "bdc-ref-to-dangling", "dp-ref-to-dangling", "bdc-dangling-second"]
+
+
+def append_ops(doc, rng, page, ops):
+    """append operations to a page's content (rewritten as one stream)"""
+    pn = [n for n in doc.pages if doc.objs[n] is page][0]
+    i = doc.pages.index(pn)
+    content = doc.expect[i]["content"] + b"\n" + ops
+    doc.expect[i]["content"] = content
+    page["Contents"] = doc.add(enc_stream(rng, {}, content))
+    return i
+
+
+def plant_marked_content(doc, rng, kind):
+    """marked-content operators on one page (two for the shared kind) -> indices of the pages changed.
+    A property list is a name (of the /Properties resources) or an inline dictionary; the library's reader also accepts
+    references inside the inline dictionary and the importer copies what they designate."""
+    doc.features.add("mc:" + kind)
+    pi = rng.randrange(len(doc.pages))
+    page = doc.objs[doc.pages[pi]]
+    draw = rng.choice([b"0 0 m 10 10 l S", b"0 0 3 3 re f", b"1 w 2 2 m 5 9 l S"])
+    missing = doc.n + 60 + rng.randrange(20)
+    plist = lambda: doc.add({"Kind": Name("PropList"), "V": [1, 2.5, b"s"], "Lang": b"en"})
+    if kind == "bmc-mp":
+        ops = b"/Artifact BMC " + draw + b" EMC /Pt MP"
+    elif kind == "bdc-inline":
+        ops = b"/Span << /MCID %d /Lang (en) /A [1 2.5 /N (s)] /D << /E true /F null >> >> BDC " % rng.randrange(9) + draw + b" EMC"
+    elif kind == "dp-inline":
+        ops = b"/Pt << /MCID %d /B /Nm >> DP " % rng.randrange(9) + draw
+    elif kind == "bdc-ref":
+        ops = b"/Span << /K %d 0 R /MCID 1 >> BDC " % plist().num + draw + b" EMC"
+    elif kind == "dp-ref":
+        ops = b"/Pt << /K [%d 0 R 7] >> DP " % plist().num + draw
+    elif kind == "bdc-ref-shared":
+        # the same object named by the property lists of two pages (and twice on one): copied once
+        r = plist()
+        ops = b"/Span << /K %d 0 R >> BDC " % r.num + draw + b" EMC /Pt << /K %d 0 R >> DP" % r.num
+        pj = rng.randrange(len(doc.pages))
+        if pj != pi:
+            append_ops(doc, rng, doc.objs[doc.pages[pj]], b"/Span << /K %d 0 R >> BDC 0 0 1 1 re f EMC" % r.num)
+    elif kind == "bdc-ref-chain":
+        leaf = doc.add(enc_stream(rng, {"Kind": Name("Leaf")}, b"leaf data"))
+        mid = doc.add({"Next": leaf, "Back": None})
+        ops = b"/Span << /K %d 0 R >> BDC " % mid.num + draw + b" EMC"
+    elif kind == "form-properties":
+        # a named property list in the resources of a form (copied with the form's whole resource dictionary)
+        oc = doc.add({"Type": Name("OCG"), "Name": b"Layer"})
+        form = make_form(doc, rng, {"Properties": {"MC0": oc if rng.random() < 0.6 else {"Type": Name("OCG"), "Name": b"Direct"}}},
+                         b"/OC /MC0 BDC 0 0 1 1 re f EMC /Pt /MC0 DP")
+        add_resource(doc, page, "XObject", "XM", form, b"q /XM Do Q")
+        return [pi]
+    elif kind == "bdc-dangling":
+        ops = b"/Span << /K %d 0 R >> BDC " % missing + draw + b" EMC"
+    elif kind == "dp-dangling":
+        ops = b"/Pt << /K %d 0 R >> DP " % missing + draw
+    elif kind == "bdc-dangling-nested":
+        ops = b"/Span << /MCID 2 /A [ 1 << /K %d 0 R >> ] >> BDC " % missing + draw + b" EMC"
+    elif kind == "bdc-ref-to-dangling":
+        r = doc.add({"Kind": Name("PropList"), "Gone": Ref(missing)})
+        ops = b"/Span << /K %d 0 R >> BDC " % r.num + draw + b" EMC"
+    elif kind == "dp-ref-to-dangling":
+        r = doc.add({"Kind": Name("PropList"), "Gone": [Ref(missing)]})
+        ops = b"/Pt << /K %d 0 R >> DP " % r.num + draw
+    elif kind == "bdc-dangling-second":
+        # a good property list first, then one that cannot be copied
+        ops = b"/Span << /K %d 0 R >> BDC " % plist().num + draw + b" EMC /Span << /K %d 0 R >> BDC " % missing + draw + b" EMC"
+    else:
+        raise ValueError(kind)
+    append_ops(doc, rng, page, ops)
+    return [pi]
+
+
+# ---- Indexed colour spaces (§8.6.6.3; ColorSpace::to_primitive) and streams with /DecodeParms (Table 8) ---------------
+
+# (palettes of 100 bytes and more are written by the library as a stream placed directly inside the colour-space array — a
+#  defect of the unchanged library, reported; the generator stays below)
+INDEXED_KINDS = ["image-str-small", "image-str-99", "image-stream", "image-cmyk", "form-cs", "form-cs-stream", "image-str-mid", "image-stream-99"]
+PARMS_KINDS = ["flate-png-up", "lzw-early0", "chain-null-parms", "form-flate-png", "flate-tiff", "lzw-early0-form"]
+
+
+def _image_dict(w, h, cs):
+    return {"Type": Name("XObject"), "Subtype": Name("Image"), "Width": w, "Height": h, "ColorSpace": cs, "BitsPerComponent": 8,
+            "ImageMask": False, "Interpolate": False}
+
+
+def plant_indexed(doc, rng, kind):
+    doc.features.add("indexed:" + kind)
+    page = doc.objs[rng.choice(doc.pages)]
+    ncomp = 4 if kind == "image-cmyk" else 3
+    base = Name("DeviceCMYK" if ncomp == 4 else "DeviceRGB")
+    if kind.endswith("-99"):
+        n = 99
+    elif kind == "image-str-mid":
+        n = 3 * rng.randrange(10, 33)
+    else:
+        n = ncomp * rng.randrange(1, 9)
+    pal = rnd_bytes(rng, n)
+    lookup = pal
+    if "stream" in kind:
+        lookup = doc.add(enc_stream(rng, {}, pal, rng.choice(["none", "flate", "hex", "a85"])))
+    cs = [Name("Indexed"), base, n // ncomp - 1, lookup]
+    if kind.startswith("form"):
+        form = make_form(doc, rng, {"ColorSpace": {"CS0": cs}}, b"/CS0 cs %d scn 0 0 5 5 re f" % rng.randrange(n // ncomp))
+        add_resource(doc, page, "XObject", "XI0", form, b"q /XI0 Do Q")
+    else:
+        w, h = rng.randrange(1, 5), rng.randrange(1, 5)
+        img = doc.add(enc_stream(rng, _image_dict(w, h, cs), bytes(rng.randrange(n // ncomp) for _ in range(w * h)),
+                                 rng.choice(["none", "flate", "hex", "a85+flate"])))
+        add_resource(doc, page, "XObject", "XI0", img, b"q /XI0 Do Q")
+
+
+def png_up(data, row):
+    """PNG predictor 'Up' (Predictor 12): every row preceded by its tag byte 2"""
+    out, prev = b"", bytes(row)
+    for i in range(0, len(data), row):
+        r = data[i:i + row]
+        out += b"\x02" + bytes((a - b) & 255 for a, b in zip(r, prev))
+        prev = r
+    return out
+
+
+def plant_parms(doc, rng, kind):
+    """a stream whose /DecodeParms say something (non-default entries): the copy must say the same"""
+    doc.features.add("parms:" + kind)
+    page = doc.objs[rng.choice(doc.pages)]
+    w, h = rng.randrange(1, 5), rng.randrange(1, 5)
+    raw = rnd_bytes(rng, 3 * w * h)
+    img = _image_dict(w, h, Name("DeviceRGB"))
+    pred = {"Predictor": 12, "Colors": 3, "Columns": w}
+    if kind == "flate-png-up":
+        x = Stream(dict(img, Filter=Name("FlateDecode"), DecodeParms=pred), zlib.compress(png_up(raw, 3 * w)))
+    elif kind == "flate-tiff":
+        tiff = b"".join(bytes([raw[i + j] if j < 3 else (raw[i + j] - raw[i + j - 3]) & 255 for j in range(3 * w)]) for i in range(0, len(raw), 3 * w))
+        x = Stream(dict(img, Filter=[Name("FlateDecode")], DecodeParms=[{"Predictor": 2, "Colors": 3, "Columns": w, "BitsPerComponent": 8}]), zlib.compress(tiff))
+    elif kind == "lzw-early0":
+        x = Stream(dict(img, Filter=Name("LZWDecode"), DecodeParms={"EarlyChange": 0}), codecs.lzw_encode(raw, 0))
+    elif kind == "chain-null-parms":
+        x = Stream(dict(img, Filter=[Name("ASCIIHexDecode"), Name("FlateDecode")], DecodeParms=[None, pred]),
+                   codecs.hex_encode(zlib.compress(png_up(raw, 3 * w))))
+    elif kind in ("form-flate-png", "lzw-early0-form"):
+        body = b"0.5 g 0 0 4 4 re f 1 w 0 0 m 9 9 l S"
+        fd = {"Type": Name("XObject"), "Subtype": Name("Form"), "FormType": 1, "BBox": [0, 0, 10, 10]}
+        if kind == "form-flate-png":
+            cols = 6
+            body += b" " * (-len(body) % cols)
+            x = Stream(dict(fd, Filter=Name("FlateDecode"), DecodeParms={"Predictor": 12, "Columns": cols}), zlib.compress(png_up(body, cols)))
+        else:
+            x = Stream(dict(fd, Filter=Name("LZWDecode"), DecodeParms={"EarlyChange": 0}), codecs.lzw_encode(body, 0))
+    else:
+        raise ValueError(kind)
+    add_resource(doc, page, "XObject", "XD0", doc.add(x), b"q /XD0 Do Q")
+
+
+# ---- sequences through one Importer in which a page fails and a later page shares objects with it -------------------
+
+# what makes the typed copy of the carrier form fail AFTER the form itself was loaded (something nested in its resources /
+# entries that does not load as the type its position demands)
+FAIL_KINDS = ["unknown-subtype", "missing-required", "missing-bbox", "wrong-type-int", "wrong-type-dict", "wrong-entry-type",
+              "dangling", "metadata-not-stream", "pattern-bad"]
+# how the later page reaches what the failed page reached
+SHARE_KINDS = ["smask", "do", "entry", "sibling", "bad-direct", "nested-inner", "smask-indirect"]
+
+
+def plant_failing_share(doc, rng, fail, share):
+    """-> (index of the page whose import fails, index of a page that shares objects with it).  Needs >= 2 pages."""
+    doc.features.add("fail:" + fail)
+    doc.features.add("share:" + share)
+    ia, ib = rng.sample(range(len(doc.pages)), 2)
+    pa, pb = doc.objs[doc.pages[ia]], doc.objs[doc.pages[ib]]
+    img = _image_dict(2, 2, Name("DeviceRGB"))
+    fres = {}
+    extra = {}
+    if fail == "unknown-subtype":
+        bad = doc.add(Stream({"Type": Name("XObject"), "Subtype": Name("Vendor")}, b"abcd"))
+    elif fail == "missing-required":
+        d = dict(img)
+        del d["Width"]
+        bad = doc.add(Stream(d, rnd_bytes(rng, 12)))
+    elif fail == "missing-bbox":
+        bad = doc.add(Stream({"Type": Name("XObject"), "Subtype": Name("Form"), "FormType": 1}, b"0 0 1 1 re f"))
+    elif fail == "wrong-type-int":
+        bad = doc.add(42)
+    elif fail == "wrong-type-dict":
+        bad = doc.add({"Type": Name("XObject"), "Subtype": Name("Image"), "Width": 2, "Height": 2})
+    elif fail == "wrong-entry-type":
+        bad = doc.add(Stream(dict(img, Width=Name("Wide")), rnd_bytes(rng, 12)))
+    elif fail == "dangling":
+        bad = Ref(doc.n + 70 + rng.randrange(20))
+    elif fail == "metadata-not-stream":
+        bad = doc.add({"Type": Name("Metadata"), "Subtype": Name("XML")})
+        extra = {"Metadata": bad}
+    elif fail == "pattern-bad":
+        bad = doc.add({"Type": Name("Pattern"), "PatternType": 1, "PaintType": 1})
+        fres["Pattern"] = {"PB": bad}
+    else:
+        raise ValueError(fail)
+    if fail not in ("metadata-not-stream", "pattern-bad"):
+        fres["XObject"] = {"Bad": bad}
+    good = doc.add(enc_stream(rng, img, rnd_bytes(rng, 12), rng.choice(["none", "flate", "hex"])))
+    if share == "sibling" or rng.random() < 0.3:
+        fres.setdefault("XObject", {})["Good"] = good
+    if rng.random() < 0.5:
+        fres["ExtGState"] = {"GF": make_gs(doc, rng)}
+    body = b"0 0 10 10 re f" + (b" q /Good Do Q" if "Good" in fres.get("XObject", {}) else b"")
+    inner = make_form(doc, rng, fres, body, extra)
+    carrier = inner
+    if share == "nested-inner" or rng.random() < 0.25:
+        doc.features.add("fail:nested")
+        carrier = make_form(doc, rng, {"XObject": {"In": inner}}, b"q /In Do Q")
+    add_resource(doc, pa, "XObject", "XF", carrier, b"q /XF Do Q")
+    mask = lambda g: {"Type": Name("ExtGState"), "SMask": {"Type": Name("Mask"), "S": Name("Luminosity"), "G": g}}
+    if share == "smask":
+        add_resource(doc, pb, "ExtGState", "GSM", mask(carrier), b"/GSM gs 0 0 3 3 re f")
+    elif share == "smask-indirect":
+        add_resource(doc, pb, "ExtGState", "GSM", doc.add(mask(carrier)), b"/GSM gs 0 0 3 3 re f")
+    elif share == "do":
+        add_resource(doc, pb, "XObject", "XF2", carrier, b"q /XF2 Do Q")
+    elif share == "entry":
+        pb["PieceInfo"] = {"App": {"LastModified": b"D:20200101", "Private": carrier}}
+    elif share == "sibling":
+        add_resource(doc, pb, "XObject", "XG", good, b"q /XG Do Q")
+    elif share == "bad-direct":
+        add_resource(doc, pb, "ExtGState", "GSM", mask(bad), b"/GSM gs 0 0 3 3 re f")
+    elif share == "nested-inner":
+        add_resource(doc, pb, "ExtGState", "GSM", mask(inner), b"/GSM gs 0 0 3 3 re f")
+    else:
+        raise ValueError(share)
+    return ia, ib
+
+
+# ---- encrypted sources with a stream that cannot be decrypted (Resolve::stream_data fails) ---------------------------
+
+UNREADABLE_KINDS = ["smask", "entry", "image", "smask-form-nested"]
+
+
+def plant_unreadable(doc, rng, kind):
+    """a stream the selected page reaches -> (page index, object number of the stream to damage)"""
+    doc.features.add("unreadable:" + kind)
+    pi = rng.randrange(len(doc.pages))
+    page = doc.objs[doc.pages[pi]]
+    form = lambda res=None: doc.add(Stream(dict({"Type": Name("XObject"), "Subtype": Name("Form"), "FormType": 1, "BBox": [0, 0, 1, 1]},
+                                                **({"Resources": res} if res else {})), b"0 0 1 1 re f"))
+    mask = lambda g: {"Type": Name("ExtGState"), "SMask": {"Type": Name("Mask"), "S": Name("Luminosity"), "G": g}}
+    if kind == "smask":
+        x = form()
+        add_resource(doc, page, "ExtGState", "GSU", mask(x), b"/GSU gs 0 0 3 3 re f")
+    elif kind == "smask-form-nested":
+        x = form()
+        add_resource(doc, page, "ExtGState", "GSU", doc.add(mask(form({"XObject": {"In": x}}))), b"/GSU gs 0 0 3 3 re f")
+    elif kind == "entry":
+        x = doc.add(Stream({"Kind": Name("Private")}, b"private data"))
+        page["PieceInfo"] = {"App": {"LastModified": b"D:20200101", "Private": x}}
+    elif kind == "image":
+        x = doc.add(Stream(_image_dict(2, 2, Name("DeviceRGB")), rnd_bytes(rng, 12)))
+        add_resource(doc, page, "XObject", "XU", x, b"q /XU Do Q")
+    else:
+        raise ValueError(kind)
+    return pi, x.num
+
+
+def write_encrypted(doc, rng, damaged, nbytes):
+    """the document under the standard security handler (AESV2, empty user password), classic table; the encrypted data of
+    stream `damaged` cut to `nbytes` bytes (not a whole number of cipher blocks after the IV: it cannot be decrypted)"""
+    from oracle import security as S
+    doc.features.add("file:encrypted")
+    h = S.Handler(4, "AESV2", 16, b"", b"owner", -4, b"0123456789abcdef")
+    ivs = iter(lambda: rnd_bytes(rng, 16), None)
+    enc = S.protect(dict(doc.objs), h, ivs)
+    if nbytes is not None:
+        st = enc[damaged]
+        enc[damaged] = Stream(st.d, (st.data + rnd_bytes(rng, 32))[:nbytes])
+    entries = {n: Obj(v) for n, v in enc.items()}
+    entries[doc.n + 1] = Obj(h.encrypt_dict())
+    tr = {"Root": Ref(doc.root), "ID": [h.id0, h.id0], "Encrypt": Ref(doc.n + 1)}
+    return write_file([Revision(entries, fmt="table", trailer=tr)])[0]
